@@ -299,7 +299,7 @@ func runC07x(c c07Case) (*vstat.Failure, c07Res) {
 }
 
 func TestC07(t *testing.T) {
-	st := vstat.New("C07", "template programs with strptime (one of two layouts per line, or both), settime and timestamp(), layouts from a family of Go reference layouts, values made by formatting random instants (1970-2200, plus yearless) with the layout, corrupted variants, and repeats across lines and across the two layouts; override zone in {none, UTC, fixed offsets, tz names} x syslog-current-year on/off; expected instants computed with the Go standard library independently of earlier lines; non-trivial = a successful strptime/settime whose instant is more than a day from now; distinct by the whole case")
+	st := vstat.New("C07", "template programs with strptime (one of two layouts per line, or both), settime and timestamp(), layouts from a family of Go reference layouts, values made by formatting random instants (1970-2200, plus yearless) with the layout, corrupted variants, and repeats across lines and across the two layouts, now and then 64-160 lines with distinct timestamps between two lines that carry the same one; override zone in {none, UTC, fixed offsets, tz names} x syslog-current-year on/off; expected instants computed with the Go standard library independently of earlier lines; non-trivial = a successful strptime/settime whose instant is more than a day from now; distinct by the whole case")
 	st.Assumptions = []string{"the statement defines the result by time.Parse / time.ParseInLocation; the harness calls them directly", "datum stamps are compared only for instants representable in int64 nanoseconds (1679-2261); the reserved zero instant is skipped", "wall-clock results are bracketed by reads before and after the line"}
 	runRaw := func(raw json.RawMessage) *vstat.Failure {
 		c, err := vstat.JSON[c07Case](raw)
@@ -386,6 +386,27 @@ func TestC07(t *testing.T) {
 					l = c07Line{Kind: "N"}
 				}
 				c.Lines = append(c.Lines, l)
+			}
+			if rapid.IntRange(0, 11).Draw(rt, "longrun") == 0 {
+				// a long stretch of distinct timestamps between two lines that carry
+				// the same one (a source delivered again, interleaved sources): more
+				// distinct values than any conversion cache is likely to hold
+				var first *c07Line
+				for i := range c.Lines {
+					if c.Lines[i].Kind == "A" {
+						first = &c.Lines[i]
+						break
+					}
+				}
+				if first != nil {
+					base := time.Unix(1600000000, 0).UTC()
+					nrun := rapid.IntRange(64, 160).Draw(rt, "nrun")
+					for k := 0; k < nrun; k++ {
+						c.Lines = append(c.Lines, c07Line{Kind: "A", V1: base.Add(time.Duration(k) * 61 * time.Minute).Format(c.Layout1)})
+					}
+					c.Lines = append(c.Lines, *first)
+					st.Class("long-run-of-distinct-timestamps-then-a-repeat")
+				}
 			}
 			f, res := runC07(c)
 			st.Eval()
